@@ -274,5 +274,11 @@ func genAll(w *bufio.Writer, seed uint64, tier string) {
 			g.emit("C15 cacherace %d %d", e, k)
 			g.emit("C15 cacherace %d %d rev", e, k)
 		}
+		// the pinned path end to end through the worker handler, with and without a configured token timeout
+		for _, t := range []int{0, 7} {
+			for _, other := range []int{0, 1} {
+				g.emit("C15 wpin %d %d %d", t, e, other)
+			}
+		}
 	}
 }
